@@ -78,6 +78,9 @@ pub struct Strat {
     pub max_spurious: u32,
     pub parallelism: u64,
     pub freeze: Option<(usize, u64)>, // (thread, k): stop thread at its k-th scheduling point
+    pub freeze_solo: bool,            // until it freezes the victim runs alone (from freeze_from on)
+    pub freeze_from: u32,             // ... counting only the scheduling points it reaches from this phase on
+    pub tick_after: u32,              // a spinning timed waiter gets forced clock ticks after this many clock reads
     pub script: Vec<u32>,             // recorded decisions to follow (replay)
     pub max_steps: u64,
     pub follow: Vec<i32>, // spec -> impl replay: process to move at each model-visible step (-1 = clock tick)
@@ -95,6 +98,9 @@ impl Default for Strat {
             max_spurious: 2,
             parallelism: 16,
             freeze: None,
+            freeze_from: 0,
+            freeze_solo: false,
+            tick_after: 40,
             script: vec![],
             max_steps: 200_000,
             tick_phase: 0,
@@ -324,6 +330,22 @@ impl Sched {
             }
             return Some(e);
         }
+        // solo sweep: from the given phase on, and until it freezes, the victim runs alone (so that exactly its first
+        // k - 1 scheduling points of that phase precede everything the others do: one preemption, at a chosen point)
+        if self.strat.freeze_solo && self.frozen.is_none() && self.phase >= self.strat.freeze_from {
+            if let Some((t, _)) = self.strat.freeze {
+                if t < self.n && self.enabled(t, false) {
+                    let hard = match self.pending[t] {
+                        Some(p) if p.kind == kv::PARK => self.token[t],
+                        Some(p) if p.kind == WAIT_WAKER => self.woken[p.a as usize],
+                        _ => true,
+                    };
+                    if hard && self.spin[t] < 60 {
+                        return Some(t);
+                    }
+                }
+            }
+        }
         let mut en: Vec<usize> = (0..self.n).filter(|&i| self.enabled(i, false)).collect();
         // threads blocked only by a spurious possibility are offered rarely
         let mut hard: Vec<usize> = en
@@ -408,7 +430,7 @@ impl Sched {
             }
             kv::NOW => {
                 let q = self.strat.q_tick;
-                let force = self.spin[i] > 40 && self.phase >= self.strat.tick_phase;
+                let force = self.spin[i] > self.strat.tick_after && self.phase >= self.strat.tick_phase;
                 let rnd = (self.rndf() < q) as u32;
                 let tick = if force { 1 } else { self.decide_val(2, rnd, |v| v < 2) };
                 if tick == 1 {
@@ -596,8 +618,10 @@ pub fn point(kind: u32, addr: usize, a: u64, b: u64) -> u64 {
     let mut s = g().m.lock().unwrap();
     s.pending[me] = Some(Pending { kind, addr, a, b });
     s.st[me] = TSt::AtHook;
-    s.hooks_seen[me] += 1;
-    s.apply_freeze(me);
+    if s.phase >= s.strat.freeze_from {
+        s.hooks_seen[me] += 1;
+        s.apply_freeze(me);
+    }
     s = pass_on(me, s);
     s = wait_for_baton(me, s);
     s.perform(me)
